@@ -116,6 +116,8 @@ pub struct FitOut<T: Sc> {
     pub coef: Option<DMatrix<T>>,
     pub best_fit: Option<DMatrix<T>>,
     pub problem: Box<dyn DynP<T>>,
+    /// model calls made when `fit` returned (before the harness' own accessor calls)
+    pub calls_at_return: usize,
 }
 
 pub struct StatsOut<T: Sc> {
@@ -149,7 +151,7 @@ pub trait DynP<T: Sc>: Send {
     fn to_seq(self: Box<Self>) -> Box<dyn DynP<T>>;
 }
 
-fn fit_out<T: Sc, const MRHS: bool>(ok: bool, r: FitResult<WM<T>, MRHS>, coef: Option<DMatrix<T>>, best: Option<DMatrix<T>>) -> FitOut<T>
+fn fit_out<T: Sc, const MRHS: bool>(ok: bool, r: FitResult<WM<T>, MRHS>, coef: Option<DMatrix<T>>, best: Option<DMatrix<T>>, calls: usize) -> FitOut<T>
 where
     LevMarProblem<WM<T>, MRHS, false>: DynP<T> + 'static,
 {
@@ -164,6 +166,7 @@ where
         coef,
         best_fit: best,
         problem: Box::new(r.problem),
+        calls_at_return: calls,
     }
 }
 
@@ -204,14 +207,16 @@ macro_rules! impl_dynp {
                 let solver = LevMarSolver::<WM<T>, $mrhs>::with_solver(lm);
                 match solver.fit(*self) {
                     Ok(r) => {
+                        let calls = r.problem.model().probe.count();
                         let c = r.linear_coefficients().map(|c| view_to_mat(&c));
                         let b = r.best_fit().map(|c| view_to_mat(&c));
-                        fit_out(true, r, c, b)
+                        fit_out(true, r, c, b, calls)
                     }
                     Err(r) => {
+                        let calls = r.problem.model().probe.count();
                         let c = r.linear_coefficients().map(|c| view_to_mat(&c));
                         let b = r.best_fit().map(|c| view_to_mat(&c));
-                        fit_out(false, r, c, b)
+                        fit_out(false, r, c, b, calls)
                     }
                 }
             }
@@ -237,19 +242,21 @@ macro_rules! impl_dynp {
         let solver = LevMarSolver::<WM<T>, false>::with_solver($lm);
         match solver.fit_with_statistics(*$self) {
             Ok((r, st)) => {
+                let calls = r.problem.model().probe.count();
                 let c = r.linear_coefficients().map(|c| view_to_mat(&c));
                 let b = r.best_fit().map(|c| view_to_mat(&c));
                 let vals = stat_vals(st);
                 StatsOut {
-                    fit: fit_out(true, r, c, b),
+                    fit: fit_out(true, r, c, b, calls),
                     stats: Some(vals),
                 }
             }
             Err(r) => {
+                let calls = r.problem.model().probe.count();
                 let c = r.linear_coefficients().map(|c| view_to_mat(&c));
                 let b = r.best_fit().map(|c| view_to_mat(&c));
                 StatsOut {
-                    fit: fit_out(false, r, c, b),
+                    fit: fit_out(false, r, c, b, calls),
                     stats: None,
                 }
             }
